@@ -25,9 +25,17 @@ the first occurrence, then drops it again when it was already present -/
 def appendLPinned (v : α) (old : List α) : List α := old ++ [v]
 def removeL (v : α) (old : List α) : List α := old.filter (· != v)
 
+/-- the order in which the loop visits the pieces of the value: a value that is prepended piece by piece is
+visited last piece first, so that its pieces keep their order at the front of the list (repair of D121) -/
+def loopVals (append fwd : Bool) (vals : List α) : List α := if fwd && !append then vals.reverse else vals
+
+@[simp] theorem loopVals_single (append fwd : Bool) (v : α) : loopVals append fwd [v] = [v] := by
+  cases append <;> cases fwd <;> rfl
+
 /-- the whole loop followed by `pathUnique` -/
 def applyL (append fwd : Bool) (vals : List α) (old : List α) : List α :=
-  uniq (vals.foldl (fun np v => if fwd then (if append then appendL v np else prependL v np) else removeL v np) old)
+  uniq ((loopVals append fwd vals).foldl
+    (fun np v => if fwd then (if append then appendL v np else prependL v np) else removeL v np) old)
 
 /-- the loop with the pinned append rule (D8) -/
 def applyLPinned (append fwd : Bool) (vals : List α) (old : List α) : List α :=
